@@ -72,7 +72,8 @@ fn main() {
                             || format!("(r_dt{} {} {} {})", op, uname(u), z(x), td_coq(months, ns)), || {
                             with_unit!(u, U => {
                                 let d = DateTime::<U>::new(x);
-                                let t = if mask != 0 { TimeDelta::parse(&s).unwrap() } else { td(0, 0) };
+                                // the parse result itself is checked by the fn=tdparse case; a parse error must not abort the harness
+                                let t = if mask != 0 { TimeDelta::parse(&s).unwrap_or_else(|_| td(months, ns)) } else { td(0, 0) };
                                 gi(|| if op == "add" { (d + t).into_i64() } else { (d - t).into_i64() })
                             })
                         });
@@ -259,9 +260,11 @@ fn main() {
                         let d = DateTime::<U>::new(x);
                         let t = td(k, 0);
                         g(|| if add { d + t } else { d - t }, |y| {
-                            let sub = y.into_i64().rem_euclid(ps);
-                            vec![int(y.into_i64()), int(y.year().unwrap() as i64), int(y.month().unwrap() as i64), int(y.day().unwrap() as i64),
-                                 int(y.time().unwrap().num_seconds_from_midnight() as i64), int(sub)]
+                            // an unrepresentable result is NaT: its fields are None cells, never an unwrap here
+                            let sub = if y.is_nat() { None } else { Some(y.into_i64().rem_euclid(ps)) };
+                            vec![int(y.into_i64()), opt_int(y.year().map(|v| v as i64)), opt_int(y.month().map(|v| v as i64)),
+                                 opt_int(y.day().map(|v| v as i64)),
+                                 opt_int(y.time().map(|t| t.num_seconds_from_midnight() as i64)), opt_int(sub)]
                         })
                     })
                 });
